@@ -191,3 +191,53 @@ def run_one(modname, item, flavour='plain', timeout=600, extra_env=None):
     item['flavour'] = flavour
     return run_items(modname, [item], nproc=1, timeout=timeout,
                      extra_env=extra_env, progress=False)[0]
+
+
+_SELFCHECK = {}
+
+
+def sanitizer_selfcheck(flavour):
+    """Positive control: the flavour's runtime, loaded the way the workloads
+    load it, must report a known overflow / race.  Returns (ok, detail)."""
+    if flavour == 'plain':
+        return True, 'plain flavour: no sanitizer'
+    if flavour in _SELFCHECK:
+        return _SELFCHECK[flavour]
+    info = FLAV.get(flavour)
+    fdir = os.path.dirname(info['tree'])
+    so = os.path.join(fdir, 'san_control.so')
+    src = os.path.join(os.path.dirname(os.path.abspath(vbuild.__file__)),
+                       'san_control.c')
+    flags = vbuild.FLAGS[flavour].split()
+    r = subprocess.run(['gcc', '-shared', '-fPIC', '-o', so, src, '-lpthread']
+                       + flags, stdout=subprocess.PIPE,
+                       stderr=subprocess.STDOUT, text=True)
+    if r.returncode != 0:
+        _SELFCHECK[flavour] = (False, 'control build failed: ' + r.stdout[-500:])
+        return _SELFCHECK[flavour]
+    logbase = os.path.join(fdir, 'selfcheck.san')
+    for f in os.listdir(fdir):
+        if f.startswith('selfcheck.san'):
+            os.remove(os.path.join(fdir, f))
+    env = vbuild.full_env(info, san_options(flavour, logbase))
+    code = ("import ctypes, pysph.base.nnps_base; l = ctypes.CDLL(%r); "
+            % so)
+    if flavour == 'asan':
+        code += "l.control_overflow(4); l.control_ub(5)"
+    else:
+        code += "l.control_race()"
+    r = subprocess.run([PY, '-c', code], env=env, stdout=subprocess.PIPE,
+                       stderr=subprocess.STDOUT, text=True, timeout=300)
+    text = ''
+    for f in os.listdir(fdir):
+        if f.startswith('selfcheck.san'):
+            with open(os.path.join(fdir, f), errors='replace') as fp:
+                text += fp.read()
+    from . import sanparse
+    reps = sanparse.parse(text + '\n' + r.stdout)
+    kinds = sorted(set(x['tool'] for x in reps))
+    need = {'asan': ['asan', 'ubsan'], 'tsan': ['tsan']}[flavour]
+    ok = all(k in kinds for k in need)
+    _SELFCHECK[flavour] = (ok, 'control reports seen: %s (need %s)' % (
+        kinds, need))
+    return _SELFCHECK[flavour]
